@@ -56,6 +56,25 @@ def use(p, x):
 @dag
 def shared_s(x):
     return use(prep(), x)
+
+@xn(resource=Resource.thread)
+def p_inc(x):
+    return x + 1
+
+@xn(resource=Resource.async_thread, priority=3)
+def p_dbl(x):
+    return 2 * x
+
+@xn(resource=Resource.thread, is_sequential=True)
+def p_add(x, y):
+    return x + y
+
+@dag(max_concurrency=2)
+def shared_p(x):
+    # worker threads of the library's own pools run these node functions (they finish by themselves); the two SCHEDULERS interleave
+    a = p_inc(x)
+    b = p_dbl(x)
+    return p_add(a, b)
 '''
 
 BUILD_SRC = {
@@ -155,6 +174,8 @@ def do_op(op: tuple, out: list) -> None:
             out.append(("built", loc[DAG_NAME[kind]]))
         elif kind == "call_f":
             out.append(("ok", repr(FRESH["shared_f"](op[1]))))
+        elif kind == "call_p":
+            out.append(("ok", repr(ns["shared_p"](op[1]))))
         elif kind == "call_s":
             out.append(("ok", repr(ns["shared_s"](op[1]))))
         elif kind == "bare_method":
@@ -210,6 +231,8 @@ SCENARIOS: Dict[str, List[List[tuple]]] = {
     "call_s||call_s+rendezvous": [[("call_s", 1)], [("call_s", 2)]],
     "call_s||call_s": [[("call_s", 1)], [("call_s", 2)]],
 }
+SCENARIOS["pooled_call||pooled_call"] = [[("call_p", 1)], [("call_p", 5)]]
+SCENARIOS["pooled_call||build"] = [[("call_p", 1)], [("build",)]]
 FRESH_SRC = '''
 @dag
 def shared_f(x):
